@@ -28,8 +28,8 @@ def _table(prog, f, expr):
             return _table(prog, f, binds[0].value) if isinstance(binds[0].value, ast.Dict) else None
         if not binds and expr.id not in f.params:
             v = prog.module_attr(f.module.name, expr.id)
-            if isinstance(v, tuple) and len(v) > 2 and isinstance(v[2], ast.Dict):
-                return _table(prog, f, v[2])
+            if isinstance(v, tuple) and v[0] == 'expr' and isinstance(v[1], ast.Dict):
+                return _table(prog, f, v[1])
         return None
     if isinstance(expr, ast.Attribute) and f.cls is not None and norm(expr.value) in ('self', 'cls', f.cls.name):
         v = prog.lookup(f.cls, expr.attr)
